@@ -28,7 +28,8 @@ CHECKS = {
          "dimension, margin split by the clamped centering) and its inside-ness is an Apalache lemma for all sizes 1..65535. The implementation's f64 results "
          "for a boundary lattice^4, near-equal-ratio and seeded quadruples (~20k quick) are logged as exact dyadic rationals and judged by TLC with exact "
          "arithmetic: non-negative origin, f64-rounded right/bottom edge <= source size (the library's own validation), branch choice, full dimension exact, "
-         "aspect and centering within 2^-50 relative; real resizes with fit_into_destination must return Ok.",
+         "aspect and centering within 2^-50 relative; real resizes with fit_into_destination must return Ok, "
+         "and the crop box the resizer really used (crop_box hook) is judged by the same operators, both with explicit centerings and with the default one (0.5, 0.5).",
     note="Inside-ness is judged as the library's validation computes it (f64 sum, ties-to-even, modelled exactly in Wide!DyRound53) plus at most one rounding error of the exact sum. "
          "Centerings are dyadic rationals; NaN excluded by the property.",
     design="4/C15", technique=TECH + " with exact dyadic arithmetic; Apalache lemma"),
@@ -47,7 +48,9 @@ CHECKS = {
          "(a successful call assigns every destination pixel, an error/zero-size call none), NoStaleRead, BuffersHome, Canonical; the pinned 'no pass does nothing' "
          "behaviour is refuted as a witness. Conformance: ~1.2k (quick) executions of resize (all algorithms, SuperSampling m=1..4 incl. same-size intermediates), the four "
          "alpha operations, mapping and conversion, through exact / oversized / cropped / nested / typed destinations, 1 and 4 threads, each run twice with different sentinels: "
-         "the hook events of every recorded call (crop resolution, copy fast path, dispatch, super-sampling plan, every temporary image with buffer length before/after and alignment gap, window extents, pass order and offsets, premultiply/divide) are validated step by step against Resizer!Ok/Upd (TraceResize), and TLC checks outside bytes unchanged, inside bytes equal in both runs, source unchanged, destination untouched on errors and zero sizes.",
+         "the hook events of every recorded call (crop resolution, copy fast path, dispatch, super-sampling plan, every temporary image with buffer length before/after and alignment gap, window extents, pass order and offsets, premultiply/divide) are validated step by step against Resizer!Ok/Upd (TraceResize), and TLC checks outside bytes unchanged, inside bytes equal in both runs, source unchanged, destination untouched on errors and zero sizes. "
+         "Plans with a single pass whose crop lands inside cropped / nested views and every residue of the row length (vector body vs scalar tail of the alpha kernels) are covered systematically. Api.tla holds the entry-point decision tables "
+         "(operation x source type x destination type x size relation -> Ok / which error) over all pixel-type pairs; TraceApi judges the recorded answer and the untouched destination of every combination. Thorough: + 6k seeded random calls.",
     note="Outside/source bytes are compared via two 31-bit digests. Assignment is inferred from equality under two sentinels (a result equal to both sentinels would be missed).",
     design="4/C05", technique=TECH),
  "C07": dict(
@@ -60,7 +63,9 @@ CHECKS = {
     text="Resizer.tla models the three scratch buffers (grow-only lengths, one-pixel alignment gap, moved out and put back) and MC_Resizer_hist explores all 3-call histories "
          "with Reset of a reduced alphabet (full 2-call histories in the thorough tier). Conformance: seeded histories (all 13 pixel types, larger-then-smaller sizes, all algorithms, alpha on/off, "
          "rejected and zero calls, reset_internal_buffers, clone) on long-lived Resizers, every call repeated on a fresh one: TLC replays each history per slot -- the logged buffer "
-         "length before/after every temporary image and the alignment gap must equal the model's, the hook sequence must be allowed -- and the reused result must equal the fresh one.",
+         "length before/after every temporary image and the alignment gap must equal the model's, the hook sequence must be allowed -- and the reused result must equal the fresh one. "
+         "Spec -> implementation: TLC's simulator draws call histories from MC_ResizerSim (behaviours of the specification), the harness executes them on one long-lived Resizer and the recorded hook stream is validated again; near-repeat histories "
+         "(same sizes with another crop origin, filter, algorithm, pixel type or alpha flag directly after each other) target state that is keyed too coarsely.",
     note="Results compared via two 31-bit digests. Buffer contents are abstract (written / not written per image); stale *content* is detected only through the result comparison.",
     design="4/C09", technique=TECH),
  "C11": dict(
@@ -78,7 +83,9 @@ CHECKS = {
  "C13": dict(
     text="Views.tla: a view exposes exactly its rectangle of the parent (MC_Views). Conformance: each logical call (resize with every algorithm, alpha ops, mapping, conversion) is executed through "
          "17 container/placement combinations (owned, slice, reference, typed, typed reference, cropped and nested-cropped views with different paddings, spare capacity, guard pages before/after; "
-         "dynamic and typed entry points); the hook events of every recorded call (crop resolution, copy fast path, dispatch, super-sampling plan, every temporary image with buffer length before/after and alignment gap, window extents, pass order and offsets, premultiply/divide) are validated step by step against Resizer!Ok/Upd (TraceResize), and TLC requires a single result per logical call, unchanged surroundings and source.",
+         "dynamic and typed entry points); the hook events of every recorded call (crop resolution, copy fast path, dispatch, super-sampling plan, every temporary image with buffer length before/after and alignment gap, window extents, pass order and offsets, premultiply/divide) are validated step by step against Resizer!Ok/Upd (TraceResize), and TLC requires a single result per logical call, unchanged surroundings and source. "
+         "The row-iterator contract (Views!RowsFrom / RowGroups / RowsStep; MC_Rows) is validated directly: iter_rows, iter_rows_mut, iter_2_rows, iter_4_rows, iter_rows_with_step of every container kind for all start rows incl. beyond the height "
+         "(TraceRows): number of rows, row length and the tags of every exposed pixel.",
     note="Results compared via two 31-bit digests.", design="4/C13", technique=TECH),
  "C16": dict(
     text="Convert.tla / TraceConvert: the 16 complete mapper tables (sRGB and gamma 2.2, both directions, 8/16-bit depth combinations) are recorded through forward_map / backward_map on ramps and "
@@ -120,7 +127,7 @@ CHECKS = {
  "C08": dict(
     text="Threading.tla specifies the band count over unbounded integers, SplitBands and the take/finish/join protocol over the implementation's events; MC_Threading explores all interleavings of band workers at small scope (no cell written twice, "
          "complete at the join, source line = destination line + offset); BandLemmas: band tiling for all 1 <= parts <= size < 2^32, band count in 0..extent for all u32 shapes, and the wrapping-u32 area refuted (65,536 rows). Conformance: "
-         "each case runs in rayon pools of 1, 2, 3, 4, 7, 16, 32 threads (shapes 1xN / Nx1 up to 70,000, squares around the 2^14 area threshold, pools larger than the extent, all passes, one- and two-image alpha operations); TLC validates every "
+         "each case runs in rayon pools of 1, 2, 3, 4, 7, 16, 32 threads (shapes 1xN / Nx1 up to 70,000, squares around the 2^14 area threshold, pools larger than the extent, all passes, one- and two-image alpha operations, crop boxes that give both passes non-zero source offsets); TLC validates every "
          "logged split plan and band begin/end event against Threading (each band exactly once, join before the next step), the pipeline, and the output bytes against the 1-thread run.",
     note="OS schedules are sampled; exhaustive interleavings only in the model. Outputs compared via two 31-bit digests.", design="4/C08", technique=TECH + "; Apalache lemmas"),
  "C10": dict(
@@ -154,7 +161,7 @@ for p in props:
         m["checks"].append({"property_id": i, "quick_cmd": "./check %s --tier quick" % i,
                             "thorough_cmd": "./check %s --tier thorough" % i,
                             "evidence_file": "/verif/evidence/%s.json" % i,
-                            "replay_cmd_template": "cat {path}",
+                            "replay_cmd_template": "./check replay {path}",
                             "engine": "tlc",
                             "level_claimed": {"category": "model_checking", "text": c["text"], "design_ref": c["design"]},
                             "level_note": c["note"], "technique": c["technique"]})
